@@ -43,3 +43,18 @@ impl Snapshot {
         self.all.iter().position(|o| o.addr == addr)
     }
 }
+
+/// Raw pacing counters of the current collection cycle (what `Metrics::allocation_debt` is computed
+/// from), unclamped.
+#[derive(Debug, Clone, Copy, PartialEq)]
+pub struct MetricsCounters {
+    pub total_gcs: usize,
+    pub wakeup_amount: f64,
+    pub artificial_debt: f64,
+    pub allocated_gcs: usize,
+    pub dropped_gcs: usize,
+    pub freed_gcs: usize,
+    pub marked_gcs: usize,
+    pub traced_gcs: usize,
+    pub remembered_gcs: usize,
+}
